@@ -200,8 +200,8 @@ package inprocgrpc
 //@   assert_call[C01,C05] writeMessage : final_frames_on_the_response_channel_under_the_lock: arg0 == s.ctx && arg1 == nil && arg2 == s.responses && held(&s.mu)
 //@   assert_call[C03] writeMessage : pending_headers_go_first: arg3.headers != nil ==> !called(writeMessage) && arg3.data == nil && arg3.trailers == nil && arg3.err == nil
 //@   assert_call[C03] writeMessage : trailers_before_the_error: arg3.headers == nil && arg3.trailers != nil ==> arg3.data == nil && arg3.err == nil && (!called(writeMessage) || lastarg(writeMessage, 3).headers != nil)
-//@   assert_call[C02] writeMessage : error_frame_is_the_handlers_error_and_comes_last: arg3.headers == nil && arg3.trailers == nil ==> arg3.data == nil && arg3.err == err && err != nil && (!called(writeMessage) || lastarg(writeMessage, 3).err == nil)
-//@   ensures[C02] a_failed_handler_always_gets_its_error_frame_attempted: err != nil ==> called(writeMessage) && lastarg(writeMessage, 3).err == err
+//@   assert_call[C02,C04] writeMessage : error_frame_is_the_handlers_error_and_comes_last: arg3.headers == nil && arg3.trailers == nil ==> arg3.data == nil && arg3.err == err && err != nil && (!called(writeMessage) || lastarg(writeMessage, 3).err == nil)
+//@   ensures[C02,C04] a_failed_handler_always_gets_its_error_frame_attempted: err != nil ==> called(writeMessage) && lastarg(writeMessage, 3).err == err
 //@   ensures[C02] a_successful_handler_sends_no_error_frame: err == nil ==> !called(writeMessage) || lastarg(writeMessage, 3).err == nil
 //@   ensures[C20,C05] no_data_frames_from_finish: calls(writeMessage) <= 3
 //@   ensures[C03,C02] every_pending_part_is_attempted_exactly_once: calls(writeMessage) == ite(at_lock(s.state) == 0 && at_lock(len(s.headers)) > 0, 1, 0) + ite(at_lock(len(s.trailers)) > 0, 1, 0) + ite(err != nil, 1, 0)
@@ -299,7 +299,7 @@ package inprocgrpc
 //@   assert_call[C04,C01] readMessage : first_frame_with_the_stream_context: arg0 == s.ctx && arg1 == s.responses && at_lock(s.state) == 0
 //@   ensures[C04] receive_failure_is_returned: called(readMessage) && lastresult(readMessage, 1) != nil && lastresult(readMessage, 1) != io.EOF ==> result0 == nil && result1 == lastresult(readMessage, 1)
 //@   ensures[C03] reads_at_most_one_frame: calls(readMessage) <= 1
-//@   ensures[C03,C01] a_frame_is_read_for_headers_at_most_once_per_stream: called(readMessage) && (lastresult(readMessage, 1) == nil || lastresult(readMessage, 1) == io.EOF) ==> s.state != 0
+//@   ensures[C03,C01,C20] a_frame_is_read_for_headers_at_most_once_per_stream: called(readMessage) && (lastresult(readMessage, 1) == nil || lastresult(readMessage, 1) == io.EOF) ==> s.state != 0
 //@   ensures[C02,C05] end_of_stream_or_an_error_frame_closes_the_stream: called(readMessage) && (lastresult(readMessage, 1) == io.EOF || (lastresult(readMessage, 1) == nil && lastresult(readMessage, 0).headers == nil && lastresult(readMessage, 0).data == nil && lastresult(readMessage, 0).trailers == nil && lastresult(readMessage, 0).err != nil)) ==> s.state == 2
 //@   assert_call[C03] (*internal.CallOptions).SetHeaders : header_frame_to_stream_and_options: arg0 == s.copts && arg1 == m.headers && s.headers == m.headers && m.headers != nil
 //@   assert_call[C03] (*internal.CallOptions).SetTrailers : trailer_frame_to_stream_and_options: arg0 == s.copts && arg1 == m.trailers && s.trailers == m.trailers && m.trailers != nil && m.headers == nil && m.data == nil
